@@ -51,6 +51,7 @@ def Obj.truthy : Obj → Bool
   | .enumM _ _ => true
   | .coll _ xs => !xs.isEmpty
   | .dict kvs => !kvs.isEmpty
+  | .mdict _ kvs => !kvs.isEmpty
   | .inst _ _ => true
   | .opaque _ => true
 
@@ -127,6 +128,7 @@ def pyRepr : Obj → String
   | .enumM _ _ => String.singleton unmodelledMark
   | .coll k xs => collRepr k (pyReprL xs)
   | .dict kvs => "{" ++ ", ".intercalate (pyReprKV kvs) ++ "}"
+  | .mdict _ _ => String.singleton unmodelledMark
   | .inst _ _ => String.singleton unmodelledMark
   | .opaque _ => String.singleton unmodelledMark
 termination_by structural x => x
@@ -168,6 +170,7 @@ def Obj.toFlt? : Obj → Option Int
 def Obj.iter? : Obj → Option (List Obj)
   | .coll _ xs => some xs
   | .dict kvs => some (kvs.map (·.1))
+  | .mdict _ kvs => some (kvs.map (·.1))
   | .str s => some (s.toList.map (fun c => .str (String.singleton c)))
   | .bytes h => some ((hexBytes h.toList).map (fun n => Obj.int (Int.ofNat n)))
   | _ => Option.none
@@ -192,11 +195,13 @@ def Obj.toBytes? : Obj → Option String
   | .str _ => Option.none
   | .coll _ xs => Obj.bytesOfItems xs
   | .dict kvs => Obj.bytesOfItems (kvs.map (·.1))
+  | .mdict _ kvs => Obj.bytesOfItems (kvs.map (·.1))
   | _ => Option.none
 
 /-- Is the object a mapping (`isinstance(o, Mapping)`)? -/
 def Obj.isMapping : Obj → Bool
   | .dict _ => true
+  | .mdict _ _ => true
   | _ => false
 
 
